@@ -70,3 +70,11 @@ check('C01', 'same symbolic executions as C06 continued through Display and the 
 for e in ENGINES:
     if e['name'] in ('msym', 'native-driver'):
         e['serves_properties'] = sorted(set(e['serves_properties']) | {'C06', 'C01'})
+
+check('C05', 'symbolic execution of the MIR of Zerv::apply_component_processing (all process_* / reset / schema-section code) with symbolic start values, symbolic presence and amounts of the by-name flags; z3 compares the resulting variables with the 11-level law',
+      'ResolvedArgs records are built through the derived Default MIR and filled with flags whose presence and u32 amounts are solver variables (windows of 3 levels at a time in quick, 4 in thorough, plus all-bumps / all-overrides), label overrides/bumps, and index-addressed specs (positive, negative, ~n; literals; 15 invalid shapes). The start version has symbolic presence and values for every field. The oracle applies the statement\'s law with z3 If-terms; z3 searches for start values and amounts where the real result differs, where a higher level changes, or where an invalid target is accepted.',
+      'trusted: python models of Option/Vec/IndexMap/HashSet/split_once/parse/sort_by_key; the law oracle; z3. Start values <= 2^40 (u64 overflow belongs to C13); context overrides and template resolution are outside.',
+      'DESIGN.md §7 C05')
+for e in ENGINES:
+    if e['name'] in ('msym', 'native-driver'):
+        e['serves_properties'] = sorted(set(e['serves_properties']) | {'C05'})
